@@ -379,7 +379,7 @@ func c08Cases(quick bool) []EnumCase {
 }
 
 func c08Cfg() hapi.Config {
-	return hapi.Config{FastKeys: 4, Concurrent: 1, FileBuf: 64, RewriteSz: 1 << 20}
+	return hapi.Config{FastKeys: 4, Concurrent: 2, FileBuf: 64, RewriteSz: 1 << 20}
 }
 
 // c08CfgFor: history 6 runs with a rotation threshold of four records, so that its fourth record (which carries a
